@@ -1,0 +1,231 @@
+//! Wrappers for pure functions, wire codecs and packet parsers.
+
+use crate::http_datagram_codec::{DecodeResult, Decoder as _, Encoder as _};
+use crate::{
+    downstream, forwarder, http_icmp_codec, http_udp_codec, icmp_utils, log_utils, net_utils,
+};
+use bytes::Bytes;
+use std::net::{IpAddr, SocketAddr};
+
+pub fn is_global_ip(ip: &IpAddr) -> bool {
+    net_utils::is_global_ip(ip)
+}
+
+pub fn skip_ipv4_header(packet: Bytes) -> Option<(i32, Bytes)> {
+    net_utils::skip_ipv4_header(packet)
+}
+
+pub fn skip_ipv6_header(packet: Bytes) -> Option<(i32, Bytes)> {
+    net_utils::skip_ipv6_header(packet)
+}
+
+pub fn rfc1071_checksum(bytes: &[u8]) -> u16 {
+    net_utils::rfc1071_checksum(bytes)
+}
+
+pub fn get_fixed_size_ip(bytes: &mut Bytes) -> IpAddr {
+    net_utils::get_fixed_size_ip(bytes)
+}
+
+/// A datagram decoded from the client's UDP multiplexer stream
+#[derive(Debug, Clone, PartialEq, Eq, Hash)]
+pub struct UdpIn {
+    pub source: SocketAddr,
+    pub destination: SocketAddr,
+    pub app_name: Option<String>,
+    pub payload: Bytes,
+}
+
+impl From<downstream::UdpDatagram> for UdpIn {
+    fn from(d: downstream::UdpDatagram) -> Self {
+        Self {
+            source: d.meta.source,
+            destination: d.meta.destination,
+            app_name: d.meta.app_name,
+            payload: d.payload,
+        }
+    }
+}
+
+impl From<UdpIn> for downstream::UdpDatagram {
+    fn from(d: UdpIn) -> Self {
+        Self {
+            meta: downstream::UdpDatagramMeta {
+                source: d.source,
+                destination: d.destination,
+                app_name: d.app_name,
+            },
+            payload: d.payload,
+        }
+    }
+}
+
+/// A datagram to be encoded towards the client
+#[derive(Debug, Clone, PartialEq, Eq, Hash)]
+pub struct UdpOut {
+    pub source: SocketAddr,
+    pub destination: SocketAddr,
+    pub payload: Bytes,
+}
+
+impl From<forwarder::UdpDatagram> for UdpOut {
+    fn from(d: forwarder::UdpDatagram) -> Self {
+        Self {
+            source: d.meta.source,
+            destination: d.meta.destination,
+            payload: d.payload,
+        }
+    }
+}
+
+impl From<UdpOut> for forwarder::UdpDatagram {
+    fn from(d: UdpOut) -> Self {
+        Self {
+            meta: forwarder::UdpDatagramMeta {
+                source: d.source,
+                destination: d.destination,
+            },
+            payload: d.payload,
+        }
+    }
+}
+
+/// The real [`http_udp_codec::Decoder`]
+pub struct UdpDecoder(http_udp_codec::Decoder);
+
+impl Default for UdpDecoder {
+    fn default() -> Self {
+        Self(http_udp_codec::Decoder::new(log_utils::IdChain::empty()))
+    }
+}
+
+impl UdpDecoder {
+    /// `None` = the decoder wants more data, `Some((datagram, unprocessed tail))` otherwise
+    pub fn decode_chunk(&mut self, data: Bytes) -> Option<(UdpIn, Bytes)> {
+        match self.0.decode_chunk(data) {
+            DecodeResult::WantMore => None,
+            DecodeResult::Complete(d, tail) => Some((d.into(), tail)),
+        }
+    }
+}
+
+pub fn udp_encode(d: &UdpOut) -> Option<Bytes> {
+    http_udp_codec::Encoder::default().encode_packet(&d.clone().into())
+}
+
+/// An echo request decoded from the client's ICMP multiplexer stream
+#[derive(Debug, Clone, PartialEq, Eq)]
+pub struct IcmpIn {
+    pub peer: IpAddr,
+    pub is_v6_message: bool,
+    pub is_echo_request: bool,
+    pub code: u8,
+    pub identifier: u16,
+    pub sequence_number: u16,
+    pub ttl: u8,
+    pub data: Bytes,
+    /// what the forwarder would put on the wire for this request
+    pub serialized: Bytes,
+}
+
+impl From<&downstream::IcmpDatagram> for IcmpIn {
+    fn from(d: &downstream::IcmpDatagram) -> Self {
+        let (is_v6_message, is_echo_request) = match &d.message {
+            icmp_utils::Message::V4(m) => (false, matches!(m, icmp_utils::v4::Message::Echo(_))),
+            icmp_utils::Message::V6(m) => {
+                (true, matches!(m, icmp_utils::v6::Message::EchoRequest(_)))
+            }
+        };
+        let echo = d.message.to_echo();
+        Self {
+            peer: d.meta.peer,
+            is_v6_message,
+            is_echo_request,
+            code: d.message.code(),
+            identifier: echo.map(|e| e.identifier).unwrap_or_default(),
+            sequence_number: echo.map(|e| e.sequence_number).unwrap_or_default(),
+            ttl: d.ttl,
+            data: echo.map(|e| e.data.clone()).unwrap_or_default(),
+            serialized: if is_echo_request {
+                d.message.serialize()
+            } else {
+                Bytes::new()
+            },
+        }
+    }
+}
+
+/// The real [`http_icmp_codec::Decoder`]
+pub struct IcmpDecoder(http_icmp_codec::Decoder);
+
+impl Default for IcmpDecoder {
+    fn default() -> Self {
+        Self(http_icmp_codec::Decoder::new())
+    }
+}
+
+impl IcmpDecoder {
+    pub fn decode_chunk(&mut self, data: Bytes) -> Option<(IcmpIn, Bytes)> {
+        match self.0.decode_chunk(data) {
+            DecodeResult::WantMore => None,
+            DecodeResult::Complete(d, tail) => Some(((&d).into(), tail)),
+        }
+    }
+}
+
+/// Serialize an echo request exactly as the ICMP forwarder does before sending it
+pub fn icmp_serialize_echo(v6: bool, identifier: u16, sequence_number: u16, data: Bytes) -> Bytes {
+    let echo = icmp_utils::Echo {
+        code: 0,
+        identifier,
+        sequence_number,
+        data,
+    };
+    if v6 {
+        icmp_utils::Message::V6(icmp_utils::v6::Message::EchoRequest(echo)).serialize()
+    } else {
+        icmp_utils::Message::V4(icmp_utils::v4::Message::Echo(echo)).serialize()
+    }
+}
+
+/// A plain view of a message parsed from a raw ICMP / ICMPv6 packet
+#[derive(Debug, Clone, PartialEq, Eq)]
+pub struct IcmpParsed {
+    pub type_id: u8,
+    pub code: u8,
+    pub len: usize,
+    /// (identifier, sequence number, data) of the echo request this message responds to
+    pub responded: Option<(u16, u16, Bytes)>,
+    /// The bytes the reply encoder produces for this message when it came from `peer`
+    pub encoded_reply: Option<Bytes>,
+    pub debug: String,
+}
+
+/// Run the real receive path on an ICMP message (IP header already stripped for v4):
+/// `deserialize` -> `responded_echo_request` -> reply encoder.
+pub fn icmp_parse(v6: bool, packet: Bytes, peer: IpAddr) -> Result<IcmpParsed, String> {
+    let message = if v6 {
+        icmp_utils::v6::Message::deserialize(packet)
+            .map(icmp_utils::Message::from)
+            .map_err(|e| format!("{:?}", e))?
+    } else {
+        icmp_utils::v4::Message::deserialize(packet)
+            .map(icmp_utils::Message::from)
+            .map_err(|e| format!("{:?}", e))?
+    };
+    let responded = message
+        .responded_echo_request()
+        .map(|e| (e.identifier, e.sequence_number, e.data));
+    let datagram = forwarder::IcmpDatagram {
+        meta: forwarder::IcmpDatagramMeta { peer },
+        message: message.clone(),
+    };
+    Ok(IcmpParsed {
+        type_id: message.type_id(),
+        code: message.code(),
+        len: message.len(),
+        responded,
+        encoded_reply: http_icmp_codec::Encoder::default().encode_packet(&datagram),
+        debug: format!("{:?}", message),
+    })
+}
